@@ -510,8 +510,12 @@ def lattice_truth(refe, cel):
         rhs = [(sides[0][1] - sides[1][1]) / 2, (sides[2][1] - sides[3][1]) / 2,
                (sides[4][1] - sides[5][1]) / 2, 0.0]
         if len(planes) == 8:
+            # the end planes need not be perpendicular to the prism axis
             (n_t, c_t), (n_b, c_b) = planes[6], planes[7]
-            rhs[3] = (c_t - c_b) / 2 * (1 if n_t @ axis > 0 else -1)
+            if abs(n_t @ n_b + 1.0) > 1e-9 or abs(n_t @ axis) < 1e-6:
+                raise Unsupported('end planes of the hexagonal prism')
+            rows[3] = n_t
+            rhs[3] = (c_t - c_b) / 2
         origin = np.linalg.lstsq(np.array(rows), np.array(rhs), rcond=None)[0]
         # vertices: intersections of two side lines inside all six strips
         rel = [(nrm, c - nrm @ origin) for nrm, c in sides]
@@ -540,9 +544,12 @@ def lattice_truth(refe, cel):
             raise Unsupported('side without two vertices')
         vecs = [across(0), across(2)]
         if len(planes) == 8:
+            # a3 along the axis, across the seventh-listed plane; a1 and a2
+            # parallel to the end planes, so that neighbours share whole faces
             (n_t, c_t), (_n_b, c_b) = planes[6], planes[7]
-            vecs.append(n_t * (c_t + c_b))
-        return M.LatticeTruth(2, origin, vecs, hexagon=hexv)
+            vecs = [v - axis * ((v @ n_t) / (axis @ n_t)) for v in vecs]
+            vecs.append(axis * ((c_t + c_b) / (axis @ n_t)))
+        return M.LatticeTruth(2, origin, vecs, hexagon=hexv, axis=axis)
     raise Unsupported(f'LAT={cel.lat}')
 
 
